@@ -12,6 +12,9 @@
 //!   `cache <funder|recipient>`                                       -> `ok`   put the declared one into the context cache
 //!   `init <zc16|zclist|borsh> <create|ifneeded> <target> <none | seeds> <arg|cached> <default | value-hex>`
 //!        -> `<ok needed=0|1 | err:… | panic> cpis=<log>`
+//!   `reinit <create|ifneeded> <arg|cached> [clone]`                   -> like `init`: validates the SAME pending wrapper again
+//!        (or a clone of it, which becomes the pending one) with the default initial value
+//!   `needed`                                                        -> `0|1`  `needed_init()` of the pending wrapper
 //!   `cleanup`                                                        -> `ok` | `err:…` | `panic`   default cleanup of the last init'ed set
 //!   `clean <zc16|borsh> <normalize|refund|receive|close> <target> <arg|cached> <keep | value-hex>`
 //!        -> `<ok | err:… | panic> cpis=<log>`
@@ -78,7 +81,104 @@ impl FunderObj {
     }
 }
 
-type Pending = Box<dyn FnOnce(&mut Context) -> star_frame::Result<()>>;
+/// The decoded `Init<…>` wrapper kept between ops: it can be validated again (same wrapper, default
+/// initial value, funder as argument or from the cache), cloned, asked for `needed_init()`, cleaned up.
+trait Wrapper {
+    fn revalidate(&mut self, if_needed: bool, funder: Option<&dyn CanFundRent>, ctx: &mut Context) -> star_frame::Result<()>;
+    fn needed_flag(&self) -> bool;
+    fn cleanup(&mut self, ctx: &mut Context) -> star_frame::Result<()>;
+    fn boxed_clone(&self) -> Box<dyn Wrapper>;
+}
+type Pending = Box<dyn Wrapper>;
+
+/// Re-validation forms of a keypair target set.
+trait ReInitPlain:
+    Clone
+    + NeededInit
+    + AccountSetCleanup<()>
+    + AccountSetValidate<Create<()>>
+    + AccountSetValidate<CreateIfNeeded<()>>
+    + for<'a> AccountSetValidate<Create<(&'a dyn CanFundRent,)>>
+    + for<'a> AccountSetValidate<CreateIfNeeded<(&'a dyn CanFundRent,)>>
+    + 'static
+{
+}
+impl<T> ReInitPlain for T where
+    T: Clone
+        + NeededInit
+        + AccountSetCleanup<()>
+        + AccountSetValidate<Create<()>>
+        + AccountSetValidate<CreateIfNeeded<()>>
+        + for<'a> AccountSetValidate<Create<(&'a dyn CanFundRent,)>>
+        + for<'a> AccountSetValidate<CreateIfNeeded<(&'a dyn CanFundRent,)>>
+        + 'static
+{
+}
+/// Re-validation forms of a seeded target set.
+trait ReInitSeeded:
+    Clone
+    + NeededInit
+    + AccountSetCleanup<()>
+    + AccountSetValidate<(Create<()>, Seeds<RawSeeds>)>
+    + AccountSetValidate<(CreateIfNeeded<()>, Seeds<RawSeeds>)>
+    + for<'a> AccountSetValidate<(Create<(&'a dyn CanFundRent,)>, Seeds<RawSeeds>)>
+    + for<'a> AccountSetValidate<(CreateIfNeeded<(&'a dyn CanFundRent,)>, Seeds<RawSeeds>)>
+    + 'static
+{
+}
+impl<T> ReInitSeeded for T where
+    T: Clone
+        + NeededInit
+        + AccountSetCleanup<()>
+        + AccountSetValidate<(Create<()>, Seeds<RawSeeds>)>
+        + AccountSetValidate<(CreateIfNeeded<()>, Seeds<RawSeeds>)>
+        + for<'a> AccountSetValidate<(Create<(&'a dyn CanFundRent,)>, Seeds<RawSeeds>)>
+        + for<'a> AccountSetValidate<(CreateIfNeeded<(&'a dyn CanFundRent,)>, Seeds<RawSeeds>)>
+        + 'static
+{
+}
+
+struct HeldPlain<S>(S);
+impl<S: ReInitPlain> Wrapper for HeldPlain<S> {
+    fn revalidate(&mut self, if_needed: bool, funder: Option<&dyn CanFundRent>, ctx: &mut Context) -> star_frame::Result<()> {
+        match (if_needed, funder) {
+            (false, Some(f)) => self.0.validate_accounts(Create((f,)), ctx),
+            (true, Some(f)) => self.0.validate_accounts(CreateIfNeeded((f,)), ctx),
+            (false, None) => self.0.validate_accounts(Create(()), ctx),
+            (true, None) => self.0.validate_accounts(CreateIfNeeded(()), ctx),
+        }
+    }
+    fn needed_flag(&self) -> bool {
+        self.0.needed()
+    }
+    fn cleanup(&mut self, ctx: &mut Context) -> star_frame::Result<()> {
+        self.0.cleanup_accounts((), ctx)
+    }
+    fn boxed_clone(&self) -> Box<dyn Wrapper> {
+        Box::new(HeldPlain(self.0.clone()))
+    }
+}
+struct HeldSeeded<S>(S, RawSeeds);
+impl<S: ReInitSeeded> Wrapper for HeldSeeded<S> {
+    fn revalidate(&mut self, if_needed: bool, funder: Option<&dyn CanFundRent>, ctx: &mut Context) -> star_frame::Result<()> {
+        let seeds = Seeds(self.1.clone());
+        match (if_needed, funder) {
+            (false, Some(f)) => self.0.validate_accounts((Create((f,)), seeds), ctx),
+            (true, Some(f)) => self.0.validate_accounts((CreateIfNeeded((f,)), seeds), ctx),
+            (false, None) => self.0.validate_accounts((Create(()), seeds), ctx),
+            (true, None) => self.0.validate_accounts((CreateIfNeeded(()), seeds), ctx),
+        }
+    }
+    fn needed_flag(&self) -> bool {
+        self.0.needed()
+    }
+    fn cleanup(&mut self, ctx: &mut Context) -> star_frame::Result<()> {
+        self.0.cleanup_accounts((), ctx)
+    }
+    fn boxed_clone(&self) -> Box<dyn Wrapper> {
+        Box::new(HeldSeeded(self.0.clone(), self.1.clone()))
+    }
+}
 
 pub struct Case {
     rent: (u64, u64),
@@ -90,6 +190,8 @@ pub struct Case {
     /// every `cache recipient` line = one `ctx.set_recipient` call
     recipient_sets: Vec<usize>,
     pending: Option<Pending>,
+    /// (type, target, seeds string) of the pending wrapper — what a `reinit` line re-validates
+    pending_desc: Option<(String, Pubkey, String)>,
 }
 
 fn rent_of(r: (u64, u64)) -> Rent {
@@ -160,7 +262,7 @@ pub fn disc_of(ty: &str) -> [u8; 8] {
 
 impl Case {
     pub fn new() -> Self {
-        Case { rent: (3480, 2), specs: vec![], world: None, funder: None, funder_sets: vec![], recipient_sets: vec![], pending: None }
+        Case { rent: (3480, 2), specs: vec![], world: None, funder: None, funder_sets: vec![], recipient_sets: vec![], pending: None, pending_desc: None }
     }
     fn idx(&self, k: &Pubkey) -> Option<usize> {
         self.specs.iter().position(|s| s.key == *k)
@@ -252,16 +354,16 @@ impl<T, A1, A2> InitSet<A1, A2> for T where T: for<'a> AccountSetDecode<'a, ()> 
 
 /// Decode `S`, validate it with `arg`; the decoded set survives a failed validation (as in a program
 /// that handles the error): its default cleanup (borsh: `serialize()`) can still be run by `cleanup`.
-fn validate_set<S, A>(info: &AccountInfo, arg: A, ctx: &mut Context) -> star_frame::Result<(String, Pending)>
+fn validate_set<S, A>(info: &AccountInfo, arg: A, hold: impl FnOnce(S) -> Pending, ctx: &mut Context) -> star_frame::Result<(String, Pending)>
 where
-    S: for<'a> AccountSetDecode<'a, ()> + AccountSetValidate<A> + AccountSetCleanup<()> + NeededInit + 'static,
+    S: for<'a> AccountSetDecode<'a, ()> + AccountSetValidate<A> + NeededInit + 'static,
 {
     let mut set: S = try_decode1(info)?;
     let ans = match set.validate_accounts(arg, ctx) {
         Ok(()) => format!("ok needed={}", set.needed() as u8),
         Err(e) => err_class(e),
     };
-    Ok((ans, Box::new(move |ctx: &mut Context| set.cleanup_accounts((), ctx))))
+    Ok((ans, hold(set)))
 }
 
 /// Validate the target with `Create(c)` / `CreateIfNeeded(c)`. Target kinds: keypair
@@ -275,20 +377,29 @@ where
     Init<Seeded<AS, RawSeeds>>: InitSet<(Create<C>, Seeds<RawSeeds>), (CreateIfNeeded<C>, Seeds<RawSeeds>)>,
     Box<Init<Seeded<AS, RawSeeds>>>: InitSet<(Create<C>, Seeds<RawSeeds>), (CreateIfNeeded<C>, Seeds<RawSeeds>)>,
     Init<Box<Seeded<AS, RawSeeds>>>: InitSet<(Create<C>, Seeds<RawSeeds>), (CreateIfNeeded<C>, Seeds<RawSeeds>)>,
+    Init<Signer<AS>>: ReInitPlain,
+    Box<Init<Signer<AS>>>: ReInitPlain,
+    Init<Box<Signer<AS>>>: ReInitPlain,
+    Init<Seeded<AS, RawSeeds>>: ReInitSeeded,
+    Box<Init<Seeded<AS, RawSeeds>>>: ReInitSeeded,
+    Init<Box<Seeded<AS, RawSeeds>>>: ReInitSeeded,
 {
+    fn hp<S: ReInitPlain>(s: S) -> Pending {
+        Box::new(HeldPlain(s))
+    }
     match (tseeds, if_needed, carrier) {
-        (None, false, 0) => validate_set::<Init<Signer<AS>>, _>(info, Create(c), ctx),
-        (None, true, 0) => validate_set::<Init<Signer<AS>>, _>(info, CreateIfNeeded(c), ctx),
-        (None, false, 1) => validate_set::<Box<Init<Signer<AS>>>, _>(info, Create(c), ctx),
-        (None, true, 1) => validate_set::<Box<Init<Signer<AS>>>, _>(info, CreateIfNeeded(c), ctx),
-        (None, false, _) => validate_set::<Init<Box<Signer<AS>>>, _>(info, Create(c), ctx),
-        (None, true, _) => validate_set::<Init<Box<Signer<AS>>>, _>(info, CreateIfNeeded(c), ctx),
-        (Some(raw), false, 0) => validate_set::<Init<Seeded<AS, RawSeeds>>, _>(info, (Create(c), Seeds(raw)), ctx),
-        (Some(raw), true, 0) => validate_set::<Init<Seeded<AS, RawSeeds>>, _>(info, (CreateIfNeeded(c), Seeds(raw)), ctx),
-        (Some(raw), false, 1) => validate_set::<Box<Init<Seeded<AS, RawSeeds>>>, _>(info, (Create(c), Seeds(raw)), ctx),
-        (Some(raw), true, 1) => validate_set::<Box<Init<Seeded<AS, RawSeeds>>>, _>(info, (CreateIfNeeded(c), Seeds(raw)), ctx),
-        (Some(raw), false, _) => validate_set::<Init<Box<Seeded<AS, RawSeeds>>>, _>(info, (Create(c), Seeds(raw)), ctx),
-        (Some(raw), true, _) => validate_set::<Init<Box<Seeded<AS, RawSeeds>>>, _>(info, (CreateIfNeeded(c), Seeds(raw)), ctx),
+        (None, false, 0) => validate_set::<Init<Signer<AS>>, _>(info, Create(c), hp, ctx),
+        (None, true, 0) => validate_set::<Init<Signer<AS>>, _>(info, CreateIfNeeded(c), hp, ctx),
+        (None, false, 1) => validate_set::<Box<Init<Signer<AS>>>, _>(info, Create(c), hp, ctx),
+        (None, true, 1) => validate_set::<Box<Init<Signer<AS>>>, _>(info, CreateIfNeeded(c), hp, ctx),
+        (None, false, _) => validate_set::<Init<Box<Signer<AS>>>, _>(info, Create(c), hp, ctx),
+        (None, true, _) => validate_set::<Init<Box<Signer<AS>>>, _>(info, CreateIfNeeded(c), hp, ctx),
+        (Some(raw), false, 0) => validate_set::<Init<Seeded<AS, RawSeeds>>, _>(info, (Create(c), Seeds(raw.clone())), move |s| Box::new(HeldSeeded(s, raw)) as Pending, ctx),
+        (Some(raw), true, 0) => validate_set::<Init<Seeded<AS, RawSeeds>>, _>(info, (CreateIfNeeded(c), Seeds(raw.clone())), move |s| Box::new(HeldSeeded(s, raw)) as Pending, ctx),
+        (Some(raw), false, 1) => validate_set::<Box<Init<Seeded<AS, RawSeeds>>>, _>(info, (Create(c), Seeds(raw.clone())), move |s| Box::new(HeldSeeded(s, raw)) as Pending, ctx),
+        (Some(raw), true, 1) => validate_set::<Box<Init<Seeded<AS, RawSeeds>>>, _>(info, (CreateIfNeeded(c), Seeds(raw.clone())), move |s| Box::new(HeldSeeded(s, raw)) as Pending, ctx),
+        (Some(raw), false, _) => validate_set::<Init<Box<Seeded<AS, RawSeeds>>>, _>(info, (Create(c), Seeds(raw.clone())), move |s| Box::new(HeldSeeded(s, raw)) as Pending, ctx),
+        (Some(raw), true, _) => validate_set::<Init<Box<Seeded<AS, RawSeeds>>>, _>(info, (CreateIfNeeded(c), Seeds(raw.clone())), move |s| Box::new(HeldSeeded(s, raw)) as Pending, ctx),
     }
 }
 
@@ -317,6 +428,7 @@ fn run_init(case: &mut Case, ty: &str, if_needed: bool, tgt: usize, tseeds: Opti
     verif_hooks::RENT.set(Some(rent_of(case.rent)));
     let info = *case.world.as_ref().unwrap().info(tgt);
     let funder_obj = case.funder.as_ref().map(|(_, f)| f.clone());
+    let desc_seeds = tseeds.as_ref().map(|r| seeds_str(&r.0)).unwrap_or_else(|| "none".into());
     let mut ctx = case.ctx();
     let r = hx_common::catch(|| -> star_frame::Result<(String, Pending)> {
         let funder: Option<&dyn CanFundRent> = if use_arg { Some(funder_obj.as_ref().unwrap().as_dyn()) } else { None };
@@ -350,6 +462,7 @@ fn run_init(case: &mut Case, ty: &str, if_needed: bool, tgt: usize, tseeds: Opti
     let ans = match r {
         Ok(Ok((s, pending))) => {
             case.pending = Some(pending);
+            case.pending_desc = Some((ty.to_string(), Pubkey::new_from_array(*info.key()), desc_seeds));
             s
         }
         Ok(Err(e)) => err_class(e),
@@ -588,13 +701,48 @@ pub fn exec_line(case: &mut Case, l: &str) -> String {
             };
             run_init(case, ty, if_needed, ti, tseeds, use_arg, val, carrier)
         }
+        ["reinit", mode, how] | ["reinit", mode, how, "clone"] => {
+            let if_needed = match *mode {
+                "create" => false,
+                "ifneeded" => true,
+                _ => return bad(),
+            };
+            let use_arg = match *how {
+                "arg" => true,
+                "cached" => false,
+                _ => return bad(),
+            };
+            if case.pending.is_none() || (use_arg && case.funder.is_none()) {
+                return bad();
+            }
+            exec::install();
+            exec::take_log();
+            verif_hooks::RENT.set(Some(rent_of(case.rent)));
+            let funder_obj = case.funder.as_ref().map(|(_, f)| f.clone());
+            let mut ctx = case.ctx();
+            // the same wrapper again, or a clone of it (which then becomes the pending wrapper)
+            let mut w = if t.len() == 4 { case.pending.as_ref().unwrap().boxed_clone() } else { case.pending.take().unwrap() };
+            let r = hx_common::catch(|| {
+                let funder: Option<&dyn CanFundRent> = if use_arg { Some(funder_obj.as_ref().unwrap().as_dyn()) } else { None };
+                w.revalidate(if_needed, funder, &mut ctx).map(|_| format!("ok needed={}", w.needed_flag() as u8))
+            });
+            let ans = cls(r);
+            case.pending = Some(w);
+            format!("{ans} cpis={}", log_str())
+        }
+        ["needed"] => match &case.pending {
+            Some(w) => (w.needed_flag() as u8).to_string(),
+            None => bad(),
+        },
         ["cleanup"] => {
             let Some(p) = case.pending.take() else { return bad() };
+            case.pending_desc = None;
             exec::install();
             exec::take_log();
             verif_hooks::RENT.set(Some(rent_of(case.rent)));
             let mut ctx = case.ctx();
-            let r = hx_common::catch(|| p(&mut ctx).map(|_| "ok".to_string()));
+            let mut p = p;
+            let r = hx_common::catch(|| p.cleanup(&mut ctx).map(|_| "ok".to_string()));
             cls(r)
         }
         ["clean", ty, op, tkey, how, newval] => {
@@ -737,6 +885,14 @@ fn oracle_init(rec: &mut Recorder, case_rent: (u64, u64), funder: Option<Pubkey>
                 rec.fail("create_on_fresh_account_fails", &format!("{l} -> {ans}"));
             }
         }
+    }
+    // `needed_init()` reports THIS validation: "newly initialized" only if this call created the account
+    // (it was System-owned and empty before and CPIs were issued), "not newly" only without any CPI
+    if res == "ok needed=1" && (log == "-" || initialized) {
+        rec.fail("needed_init_reported_without_creation", &format!("{l} -> {ans}"));
+    }
+    if res == "ok needed=0" && (log != "-" || before != after) {
+        rec.fail("creation_not_reported_as_needed_init", &format!("{l} -> {ans}"));
     }
     if res == "ok needed=1" {
         let space = W + op.enc.len();
@@ -976,7 +1132,17 @@ pub fn run_case(rec: &mut Recorder, header: &str, lines: &[String]) {
                 continue;
             }
         }
-        let is_init = l.starts_with("init ");
+        // a `reinit` line is judged like the `init` line it stands for (same wrapper, default value)
+        let reinit_as: Option<String> = if l.starts_with("reinit ") {
+            let t: Vec<&str> = l.split(' ').collect();
+            match (&case.pending_desc, t.len() >= 3) {
+                (Some((ty, tgt, sd)), true) => Some(format!("init {ty} {} {} {sd} {} default", t[1], khex(tgt), t[2])),
+                _ => None,
+            }
+        } else {
+            None
+        };
+        let is_init = l.starts_with("init ") || reinit_as.is_some();
         let is_clean = l.starts_with("clean ");
         let is_set = l.starts_with("set ");
         let before = if is_init || is_clean || is_set { Some(case.snapshot()) } else { None };
@@ -987,7 +1153,7 @@ pub fn run_case(rec: &mut Recorder, header: &str, lines: &[String]) {
                 let after = case.snapshot();
                 // the counterpart: the explicit argument, or for the cached forms the account that was
                 // set LAST into the respective cache slot
-                let cached = l.contains(" cached ");
+                let cached = reinit_as.as_deref().unwrap_or(l).contains(" cached ");
                 let funder_slot = is_init || l.contains(" normalize ") || l.contains(" receive ");
                 let last_set = if funder_slot { case.funder_sets.last().map(|(i, _)| *i) } else { case.recipient_sets.last().copied() };
                 let other = if cached { last_set.map(|i| before[i].key) } else { case.funder.as_ref().map(|(i, _)| before[*i].key) };
@@ -995,6 +1161,7 @@ pub fn run_case(rec: &mut Recorder, header: &str, lines: &[String]) {
                 rec.bump(&format!("{}:{}", if is_init { "init" } else if is_set { "set" } else { "clean" }, head));
                 if is_init {
                     failed_init = None;
+                    let l: &str = reinit_as.as_deref().unwrap_or(l);
                     if let (Some(op), true) = (parse_init(l), ans.starts_with("err:")) {
                         let t0 = find(&before, &op.tgt).clone();
                         if t0.owner != SYS || !t0.data.is_empty() {
@@ -1008,7 +1175,7 @@ pub fn run_case(rec: &mut Recorder, header: &str, lines: &[String]) {
                     // cached funder: the payer is the cached one (same declared account)
                     let no_funder = cached && case.funder_sets.is_empty();
                     let funder_seeded = if cached { case.funder_sets.last().is_some_and(|(_, f)| f.is_seeded()) } else { case.funder.as_ref().is_some_and(|(_, f)| f.is_seeded()) };
-                    oracle_init(rec, case.rent, other, funder_seeded, no_funder, l, &ans, &before, &after);
+                    oracle_init(rec, case.rent, other, funder_seeded, no_funder, reinit_as.as_deref().unwrap_or(l), &ans, &before, &after);
                 } else {
                     let cache_hit = !cached || last_set.is_some();
                     let other_seeded = if cached { case.funder_sets.last().is_some_and(|(_, f)| f.is_seeded()) } else { case.funder.as_ref().is_some_and(|(_, f)| f.is_seeded()) };
@@ -1172,19 +1339,31 @@ fn c12_case(id: usize, rng: &mut Rng, rent: (u64, u64), ty: &str, if_needed: boo
     }
     let vstr = val.as_ref().map(|v| hex(v)).unwrap_or("default".into());
     let init = format!("init {ty} {} {} {} {} {}{tcar}", if if_needed { "ifneeded" } else { "create" }, khex(&tkey), tseed_str, if cached { "cached" } else { "arg" }, vstr);
+    let how = if cached { "cached" } else { "arg" };
     lines.push(init.clone());
+    // repeated validation of the SAME wrapper and of a clone: after a creation the account is found
+    // initialized and `needed_init()` must say so (needed -> not needed; not needed -> not needed)
+    lines.push(format!("reinit ifneeded {how}"));
+    lines.push("needed".into());
+    lines.push(format!("reinit ifneeded {how} clone"));
+    lines.push("needed".into());
     lines.push("world".into());
     lines.push("cleanup".into());
     lines.push("world".into());
-    // history: a second create must fail, a second if-needed must leave it untouched
+    // history: a second create must fail, then a retry with if-needed on the same wrapper; a second
+    // if-needed must leave it untouched, then a failing create on that wrapper keeps the flag
     lines.push(init.replace(" ifneeded ", " create "));
+    lines.push(format!("reinit ifneeded {how}"));
+    lines.push("needed".into());
     lines.push(init.replace(" create ", " ifneeded "));
+    lines.push(format!("reinit create {how} clone"));
+    lines.push("needed".into());
     lines.push("world".into());
     let header = format!("case {id} c12 {ty} {} tstate={tstate} st={} sf={} cached={} twist={twist} rent={}x{}", if if_needed { "ifneeded" } else { "create" }, seeded_target as u8, seeded_funder as u8, cached as u8, rent.0, rent.1);
     (header, lines)
 }
 
-const C12_RULE: &str = "grid: target state (0 lamports; pre-funded below/at/above rent; owned by the program with zero / set / wrong discriminant; owned by a third program with data shorter / longer than the discriminant, zero or non-zero; System-owned with data; program-owned with 0 lamports) x funder (plain signer, seeded signer; argument or context cache) x account type (zero-copy pod, zero-copy list, borsh, borsh with an EMPTY encoding) x carrier (funder plain / Box<funder>; target Init<X> / Box<Init<X>> / Init<Box<X>>) x Create / CreateIfNeeded x initial values (default + random) x 3 rent parameter sets x seeded / keypair target, each followed by the set's default cleanup (also after a FAILED init: the account must be left exactly as it was) and a second Create and CreateIfNeeded on the result; plus twists (read-only target, unsigned target, poor funder, unsigned funder, seeds without the bump slot, seeds of another address, missing funder cache, funder owned by a third program, funder with data, target funding itself, funder cache set twice, 15-seed seeded target) and PRNG-drawn mixes. A case is non-trivial when an init op issued a CPI, returned an error / panicked, or changed the world; distinct by case text hash.";
+const C12_RULE: &str = "grid: target state (0 lamports; pre-funded below/at/above rent; owned by the program with zero / set / wrong discriminant; owned by a third program with data shorter / longer than the discriminant, zero or non-zero; System-owned with data; program-owned with 0 lamports) x funder (plain signer, seeded signer; argument or context cache) x account type (zero-copy pod, zero-copy list, borsh, borsh with an EMPTY encoding) x carrier (funder plain / Box<funder>; target Init<X> / Box<Init<X>> / Init<Box<X>>) x Create / CreateIfNeeded x initial values (default + random) x 3 rent parameter sets x seeded / keypair target, each followed by the set's default cleanup (also after a FAILED init: the account must be left exactly as it was) and a second Create and CreateIfNeeded on the result; repeated validation of the same Init wrapper and of clones of it (needed -> not needed, not needed -> not needed, failed create -> retry, if-needed -> failing create), observing needed_init() after each call; plus twists (read-only target, unsigned target, poor funder, unsigned funder, seeds without the bump slot, seeds of another address, missing funder cache, funder owned by a third program, funder with data, target funding itself, funder cache set twice, 15-seed seeded target) and PRNG-drawn mixes. A case is non-trivial when an init op issued a CPI, returned an error / panicked, or changed the world; distinct by case text hash.";
 
 pub fn run_c12(args: &Args) {
     let mut rec = Recorder::new(C12_RULE);
